@@ -144,7 +144,10 @@ type Gen struct {
 	decoy      string
 }
 
-func NewGen(w *World, p Profile) *Gen { return &Gen{W: w, P: p, R: w.R} }
+func NewGen(w *World, p Profile) *Gen {
+	canonicalIDs = p.ProbeOnly // cases run one after the other in a process
+	return &Gen{W: w, P: p, R: w.R}
+}
 
 func (g *Gen) pick(m map[string]int) string {
 	keys := make([]string, 0, len(m))
@@ -315,14 +318,37 @@ func (g *Gen) allSubs() []*Sub {
 
 // deliveredIDs lists ack ids handed out on s (optionally only still outstanding).
 func deliveredIDs(s *Sub, onlyOut bool) []string {
-	var ids []string
+	var ds []*Del
 	for _, d := range s.Dels {
 		if d.AckID != "" && (!onlyOut || d.State == Out) {
-			ids = append(ids, d.AckID)
+			ds = append(ds, d)
 		}
+	}
+	if canonicalIDs {
+		// twin runs: the order of s.Dels is the order in which the model learnt of
+		// the records, and for dead-letter forwards that is the order inside a pull
+		// response - which no client may rely on and which differs once a prune job
+		// has removed rows. Choose by what a client can tell apart instead.
+		sort.SliceStable(ds, func(i, j int) bool {
+			a, b := ds[i], ds[j]
+			if a.Msg.ID != b.Msg.ID {
+				return a.Msg.ID < b.Msg.ID
+			}
+			if a.Attempts != b.Attempts {
+				return a.Attempts < b.Attempts
+			}
+			return a.LastDeliv.Lo.Before(b.LastDeliv.Lo)
+		})
+	}
+	var ids []string
+	for _, d := range ds {
+		ids = append(ids, d.AckID)
 	}
 	return ids
 }
+
+// canonicalIDs is set by twin-run generators (Profile.ProbeOnly)
+var canonicalIDs bool
 
 func (g *Gen) subset(ids []string, p float64) []string {
 	var out []string
